@@ -17,7 +17,7 @@ from fsmc.explorer import ListSystem
 PID = "C10"
 RULE = ("states = reachable object graphs of a ForSys under op histories (BFS, de-duplicated on a hash of all instance dictionaries); "
         "non-trivial = at least one frame solved; classes = (effective ops per frame)")
-BOUND = {"quick": "1 frame: all histories to depth 3 over 12 ops from 2 start states (fresh; solved with an angle limit and pressures); 2 frames: depth 3 over 16 ops from the fresh object, depth 2 over 18 ops from a solved one",
+BOUND = {"quick": "1 frame: all histories to depth 3 over 12 ops from 2 start states (fresh; solved with an angle limit and pressures); 2 frames: depth 3 over 16 ops from the fresh object, depth 2 over 18 ops from a solved one; 9 calls x 2 tissues x 2 frames with optional arguments omitted vs spelled out at their defaults",
          "thorough": "1 frame: depth 4 over 13 ops from 3 start states; 2 frames: depth 3 over 22 ops from 2 start states; 3 frames: depth 2 over 19 ops from 2 start states"}
 ASSUMPTIONS = ["what matters for the tensions of frame t: the last successful build of t before the last successful solve of t, and that solve's arguments",
                "what matters for the pressures of frame t: the tensions present when the pressure matrix was last built, and the last solve_pressure",
